@@ -118,6 +118,7 @@ macro_rules! harness {
             #[kani::proof]
             #[kani::unwind($u)]
             #[kani::stub(std::hash::RandomState::new, $crate::sym::fixed_state)]
+            #[kani::stub(alloc::fmt::format, $crate::sym::no_format)]
             pub fn check() {
                 body()
             }
@@ -128,4 +129,10 @@ macro_rules! harness {
 pub fn fixed_state() -> std::hash::RandomState {
     // SAFETY: RandomState is two u64 keys; the harness only needs *some* fixed hasher state.
     unsafe { std::mem::transmute::<(u64, u64), std::hash::RandomState>((0, 0)) }
+}
+
+/// Stub for `alloc::fmt::format` (`format!`): message texts are not the subject of any
+/// harness, and formatting `{:?}` of values/schemas is what CBMC pays most for on error arms.
+pub fn no_format(_args: std::fmt::Arguments<'_>) -> String {
+    String::new()
 }
